@@ -1,7 +1,7 @@
 (* C12 — events of every terminated run form a complete, well-nested span tree.
    Translation validation: every event stream the implementation produces for a generated execution is run
    through the checker wf_b of Events.v; the theorems below say what acceptance means. *)
-From HG Require Import Base Events EventsProofs.
+From HG Require Import Base Engine Events EventsProofs EventsModel.
 
 (* every span is opened at most once and closed exactly as often as it is opened: every NodeStart
    has exactly one NodeEnd/NodeError, every RunStart exactly one RunEnd *)
@@ -44,6 +44,13 @@ Proof.
   destruct (o_run o) eqn:Er; [|discriminate]. eauto.
 Qed.
 Print Assumptions C12_node_under_run.
+
+(* C12_model: what the synchronous runner emits for a flat graph - RunStart; per executed node NodeStart, [RouteDecision],
+   NodeEnd or NodeError; RunEnd with the caller's status (EventsModel.run_events, compared event by event with the
+   implementation's stream by the harness) - is a well-formed span tree, for EVERY sequence of node executions. *)
+Theorem C12_model : forall xs failed, wf_b failed (run_events xs failed) = true.
+Proof. exact run_events_wf. Qed.
+Print Assumptions C12_model.
 
 Example C12_nonvacuous :
   let ev k s p (n : nat) := mk_event k s p (Pos.of_nat n) in
